@@ -191,6 +191,16 @@ def c19_scenarios(tier, seed):
     for k, (w, sig) in enumerate([(1, "TERM"), (2, "INT")] if tier == "quick" else [(1, "TERM"), (2, "INT"), (4, "TERM"), (1, "INT")]):
         out.append(scen(500 + k, num_workers=w, client_stats=True, status_interval=1, probe_socks=8, probe_rounds=1, load={"clients": 6, "requests": 4000},
                         signal={"sig": sig, "mode": "load_quiet", "delay_ms": 3500, "limit_ms": 5000}))
+    # schedules the scheduler rarely produces, made by delay injection at hook events: a reporter pass that outlasts the
+    # one-second cadence (r_received = after the merge, r_reported = after a report was written), a signal that arrives while
+    # workers still queue for the start-up lock (w_lock = holding it)
+    dl = [("r_received:1300", 1, "TERM", 2600, {}), ("r_reported:1150", 2, "INT", 2400, {"status_interval": 1}),
+          ("w_lock:300", 4, "TERM", 450, {}), ("r_pass:1050,w_ready:120", 2, "INT", 1500, {})]
+    if tier != "quick":
+        dl += [("r_received:2500", 4, "INT", 4000, {}), ("w_lock:200,w_unlock:200", 8, "TERM", 900, {}), ("m_spawn:150", 4, "INT", 300, {})]
+    for k, (delays, w, sig, at, extra) in enumerate(dl):
+        out.append(scen(700 + k, num_workers=w, client_stats=True, probe_socks=8, probe_rounds=1, delays=delays, load={"clients": 4, "requests": 200},
+                        signal={"sig": sig, "mode": "load", "delay_ms": at, "limit_ms": 6000}, **extra))
     # resource fault: file descriptors exhausted when health-check connections arrive, then the signal
     for k, (w, sig) in enumerate([(1, "TERM"), (4, "INT")]):
         out.append(scen(600 + k, num_workers=w, health_check=True, probe_socks=8, probe_rounds=1, fd_exhaust_then_connect=3,
